@@ -137,7 +137,7 @@ inductive Out (α : Type) where
   | absobj (a : α) (o : ObsZ)      -- `rt`: the seconds and the object read from them
   | objs (l : List ObsZ)           -- new objects, in track order
   | scalar (x : α)
-  | flags (l : List Bool)
+  | cmpo (l : List Bool) (a b : α)  -- `cmp`: the six operators, and the `toAbsTime()` of both operands
   | str (s : String)
   | int (z : Int)
   | unit
@@ -191,7 +191,7 @@ def step (trunc : α → Int) (σ : State) : Op α → State × Out α
   | .set i f v => withObj σ i fun o => ({ σ with store := σ.store.set i (setField o f v) }, .unit)
   | .abs i => withObj σ i fun o => (σ, .scalar (toAbsZ o))
   | .cmp i j => withObj σ i fun a => withObj σ j fun b =>
-      (σ, .flags [ltZ a.t b.t, gtZ a.t b.t, eqZ a.t b.t, leZ a.t b.t, geZ a.t b.t, neZ a.t b.t])
+      (σ, .cmpo [ltZ a.t b.t, gtZ a.t b.t, eqZ a.t b.t, leZ a.t b.t, geZ a.t b.t, neZ a.t b.t] (toAbsZ a) (toAbsZ b))
   | .sub i j => withObj σ i fun a => withObj σ j fun b => (σ, .scalar (subZ a b))
   | .pz i => withObj σ i fun o => (σ, .str (printZone o.zone))
   | .tz i => withObj σ i fun o => (σ, .str (timeWithZone o))
